@@ -219,6 +219,15 @@ pub fn subjects() -> Vec<Subject> {
                 }),
                 form::<T>("push_iter", |r, v| r.push(PushIter(v.clone()))),
                 form::<T>("push_iter_copied", |r, v| r.push(PushIter(v.iter().copied()))),
+                // a wrapped iterator over a read item taken from another region
+                form::<T>("push_iter_read_slice", |r, v| {
+                    if v.len() > 4096 {
+                        return r.push(v.as_slice());
+                    }
+                    let mut tmp = SliceRegion::<MirrorRegion<$e>>::default();
+                    let i = tmp.push(v.as_slice());
+                    r.push(PushIter(tmp.index(i).iter()))
+                }),
             ];
             c.reserve_forms = vec![
                 rform::<T>("slice", |r, vs| r.reserve_items(vs.iter().map(|v| v.as_slice()))),
@@ -389,6 +398,39 @@ pub fn subjects() -> Vec<Subject> {
         item_caps!(c, T);
         add::<T>(&mut out, "res_owned_owned", c);
     }
+    // plain vectors as regions UNDER fan-out regions: their reservations arrive through filtered iterators
+    {
+        type T = OptionRegion<Vec<u32>>;
+        let mut c = Caps::<T>::default();
+        c.forms = vec![
+            form::<T>("ref", |r, v| r.push(v)),
+            form::<T>("owned", |r, v| r.push(*v)),
+            form::<T>("opt_ref", |r, v| r.push(v.as_ref())),
+        ];
+        c.reserve_forms = vec![
+            rform::<T>("ref", |r, vs| r.reserve_items(vs.iter())),
+            rform::<T>("owned", |r, vs| r.reserve_items(vs.iter().copied())),
+        ];
+        clone_caps!(c, T);
+        serde_caps!(c, T);
+        add::<T>(&mut out, "opt_vec_u32", c);
+    }
+    {
+        type T = ResultRegion<Vec<u32>, Vec<String>>;
+        let mut c = Caps::<T>::default();
+        c.forms = vec![
+            form::<T>("ref", |r, v| r.push(v)),
+            form::<T>("owned", |r, v| r.push(v.clone())),
+            form::<T>("as_ref", |r, v| r.push(v.as_ref())),
+        ];
+        c.reserve_forms = vec![
+            rform::<T>("ref", |r, vs| r.reserve_items(vs.iter())),
+            rform::<T>("as_ref", |r, vs| r.reserve_items(vs.iter().map(|v| v.as_ref()))),
+        ];
+        clone_caps!(c, T);
+        serde_caps!(c, T);
+        add::<T>(&mut out, "res_vec_vec", c);
+    }
     {
         type T = TupleABRegion<MirrorRegion<u64>, StringRegion>;
         let mut c = Caps::<T>::default();
@@ -496,6 +538,7 @@ pub fn subjects() -> Vec<Subject> {
     slice_subject!("slice_cip_str_opt", SliceRegion<Cip<StringRegion>, IndexOptimized>, String, cmp_caps);
     slice_subject!("slice_cip_str_list", SliceRegion<Cip<StringRegion>, IList>, String, cmp_caps);
     slice_subject!("slice_opt_str", SliceRegion<OptionRegion<StringRegion>>, Option<String>, cmp_caps);
+    slice_subject!("slice_vec_u32", SliceRegion<Vec<u32>>, u32);
     // the inner index IS the value: arbitrary usize sequences reach the index container through a region
     slice_subject!("slice_mirror_usize_opt", SliceRegion<MirrorRegion<usize>, IndexOptimized>, usize, cmp_caps);
     slice_subject!("slice_mirror_usize_list", SliceRegion<MirrorRegion<usize>, IList>, usize, cmp_caps);
